@@ -200,7 +200,14 @@ class P(Prop):
     FFX = cg.BlackBox("ffx", ["clk", "cl", "d"], ["q"])
 
     def oracle_strip(self, c):
-        if self.rng.random() < 0.5:
+        r = self.rng.random()
+        if r < 0.15:
+            # two pins whose exposed names coincide (u.a_b and u_a.b -> u_a_b): must be rejected, not merged (K32)
+            ins = sorted(c.inputs())
+            c.add_blackbox(cg.BlackBox("m1", ["a_b"], ["z"]), "u", {"a_b": self.rng.choice(ins)})
+            c.add_blackbox(cg.BlackBox("m2", ["b"], []), "u_a", {"b": self.rng.choice(ins)})
+            ign = self.rng.choice([None, "z", "b"])
+        elif r < 0.55:
             gen.add_flops(self.rng, c, n_flops=(1, 2))
             ign = self.rng.choice([None, "clk", ["clk"]])
         else:
@@ -223,7 +230,9 @@ class P(Prop):
         o, s = call(cg.tx.strip_blackboxes, c, ign)
         self.search_cases += 1
         if o != "ok":
-            clash = any(n.replace(".", "_") in c.graph.nodes for n in c.graph.nodes if "." in n)
+            ignl0 = [] if ign is None else ([ign] if isinstance(ign, str) else ign)
+            kept = [n.replace(".", "_") for n in c.graph.nodes if "." in n and n.split(".")[-1] not in ignl0]
+            clash = any(k in c.graph.nodes for k in kept) or len(set(kept)) < len(kept)
             if not (o == "ValueError" and clash):
                 self.fail("search", f"strip_blackboxes-raised-{o}", f"strip_blackboxes raised {o}", case)
             return
@@ -236,7 +245,9 @@ class P(Prop):
                 pin = n.split(".")[-1]
                 new = n.replace(".", "_")
                 if ign and (pin == ign if isinstance(ign, str) else pin in ign):
-                    if n in s.graph.nodes or new in s.graph.nodes:
+                    ignl1 = [ign] if isinstance(ign, str) else list(ign)
+                    others = {m.replace(".", "_") for m in c.graph.nodes if "." in m and m.split(".")[-1] not in ignl1}
+                    if n in s.graph.nodes or (new in s.graph.nodes and new not in others):
                         self.fail("search", "strip-ignored-pin", f"ignored pin {n} survived", case)
                         return
                 elif t == "bb_input" and not (new in s.graph.nodes and s.type(new) == "buf" and s.is_output(new)
